@@ -218,3 +218,16 @@ def _c12_fs_nested_spec(v):
     lt = d.get('line_text') or ''
     return v['kind'] == 'a_error_node' and bool(re.search(r'(?i)\bf[r]?("|\')', lt) or re.search(r'(?i)\brf("|\')', lt)) \
         and bool(re.search(r'\{[^{}]*:[^{}]*\{[^{}:]*:[^{}]*\}', lt))
+
+
+# ---------------------------------------------------------------------------
+# C14
+
+@classifier('c14_walrus_target_in_call_argument')
+def _c14_walrus_arg(v):
+    """F-C14-1: `f(a := 1)` / `x[a := 1]`: the name is followed by ':=' inside an `argument` or `subscript`
+    node (the grammar inlines the assignment expression there instead of building a namedexpr_test)"""
+    d = v.get('detail') or {}
+    import re
+    return v['kind'] == 'is_definition' and d.get('got') is False and d.get('want') is True \
+        and (d.get('ancestors') or [None])[0] in ('argument', 'subscript') and d.get('next_sibling') == ':='
